@@ -1,3 +1,199 @@
 import Srctools.Wire
-/-! stub driver (echo) — replaced when the property's model exists. -/
-def main : IO Unit := Wire.main fun j => pure j
+import Srctools.Model.Tok
+import Srctools.Model.C16
+import Srctools.Model.C16Bin
+import Srctools.Model.C16Lazy
+import Srctools.Gen.Tok
+import Srctools.Gen.Fgdw
+/-! Driver for the C16 models.
+requests (text = arrays of code points, bytes = arrays of 0..255):
+  {"op":"long","ext":b,"indent":[cp],"s":[cp],"cfg":null|[limit,small,backoff,empty]}
+      → {"out":[cp],"nsec":n,"run":{toks,err},"read":{"strings":[[cp]],"rest":n}|{"rerr":[id,arg]}}
+        (`read` = _read_colon_list(had_colon=true) on the tokens of out ++ "\n")
+  {"op":"colon","s":[cp],"had":b}   → {"run":…, "read":…}   (tokens of s, FGD.parse_file options)
+  {"op":"dict","shared":n,"base":[[cp]],"own":[[cp]],"isBase":b,"q":[[cp]]}
+      → {"r":[null|[[bytes],null|[cp]]]}     encode(q) and the string read back from those bytes
+  {"op":"ent","shared","base","own","isBase","ent":E} → {"bytes":null|[..],"back":null|E}
+  {"op":"unent","tbl":[[cp]],"bytes":[..]} → {"ent":null|E,"rest":n}
+     E = [kind,alias,[bases],[KV],[IO],[IO],[RES]]; KV=[name,disp,typ,ro,default,[[mask,name,dflt,tagged]],desc,rep]
+     IO=[name,typ,desc]; RES=[file,typ,[tags]]
+  {"op":"lazy","blocks":[[[name,[bases],payload]]],"cbase":n,"cpayload":p,"qs":[n],"names":[n]}
+      → {"steps":[OBS…],"all":OBS,"all0":OBS}  OBS = [[parsed…],[slot…]] slot = null|[0,i]|[1,payload,0|1,[bases]]
+-/
+open Lean Tok C16
+
+def boolArr (j : Json) : Except String (List Bool) := do
+  let a ← j.getArr?
+  a.toList.mapM fun x => x.getBool?
+
+def strList (j : Json) : Except String (List (List Char)) := do
+  let a ← j.getArr?
+  a.toList.mapM Wire.strOfCodes
+
+def runJson (r : Run) : Json :=
+  Json.mkObj [
+    ("toks", Json.arr (r.toks.map fun t =>
+      Json.arr #[Json.num (JsonNumber.fromNat t.kind), Wire.codesOfStr t.value,
+                 Json.num (JsonNumber.fromNat t.line)]).toArray),
+    ("err", match r.err with
+      | none => Json.null
+      | some (e, l) => Wire.ofNatList [e.code.1, e.code.2, l])]
+
+def foldId : Char → List Char := fun c => [c]
+
+def readJson (r : Run) (had : Bool) : Json :=
+  let tks := tksOf r
+  match readColonList (tks.length + 1) tks [] had with
+  | .ok (strs, rest) => Json.mkObj [("strings", Json.arr (strs.map Wire.codesOfStr).toArray),
+                                    ("rest", Json.num (JsonNumber.fromNat rest.length))]
+  | .error e => Json.mkObj [("rerr", Wire.ofNatList [e.code.1, e.code.2])]
+
+/-! binary records -/
+open C16.Bin in
+def dictOf (j : Json) : Except String StrDict := do
+  pure { shared := ← j.getObjValAs? Nat "shared", base := ← strList (← j.getObjVal? "base"),
+         own := ← strList (← j.getObjVal? "own"), isBase := ← j.getObjValAs? Bool "isBase" }
+
+def optBytes : Option (List Nat) → Json
+  | none => Json.null
+  | some b => Wire.ofNatList b
+
+open C16.Bin in
+def kvOf (j : Json) : Except String KV := do
+  let a ← j.getArr?
+  let fl ← (a[5]!).getArr?
+  let flags ← fl.toList.mapM fun f => do
+    let q ← f.getArr?
+    pure ({ mask := ← (q[0]!).getNat?, name := ← Wire.strOfCodes (q[1]!), dflt := ← (q[2]!).getBool?,
+            tagged := ← (q[3]!).getBool? } : Flag)
+  pure { name := ← Wire.strOfCodes (a[0]!), disp := ← Wire.strOfCodes (a[1]!), typ := ← (a[2]!).getNat?,
+         readonly := ← (a[3]!).getBool?, default := ← Wire.strOfCodes (a[4]!), flags := flags,
+         desc := ← Wire.strOfCodes (a[6]!), reportable := ← (a[7]!).getBool? }
+
+open C16.Bin in
+def kvJson (k : KV) : Json :=
+  Json.arr #[Wire.codesOfStr k.name, Wire.codesOfStr k.disp, Json.num (JsonNumber.fromNat k.typ), Json.bool k.readonly,
+    Wire.codesOfStr k.default,
+    Json.arr (k.flags.map fun f => Json.arr #[Json.num (JsonNumber.fromNat f.mask), Wire.codesOfStr f.name,
+      Json.bool f.dflt, Json.bool f.tagged]).toArray,
+    Wire.codesOfStr k.desc, Json.bool k.reportable]
+
+open C16.Bin in
+def ioOf (j : Json) : Except String IO := do
+  let a ← j.getArr?
+  pure { name := ← Wire.strOfCodes (a[0]!), typ := ← (a[1]!).getNat?, desc := ← Wire.strOfCodes (a[2]!) }
+
+open C16.Bin in
+def ioJson (i : IO) : Json :=
+  Json.arr #[Wire.codesOfStr i.name, Json.num (JsonNumber.fromNat i.typ), Wire.codesOfStr i.desc]
+
+open C16.Bin in
+def entOf (j : Json) : Except String Ent := do
+  let a ← j.getArr?
+  let kvs ← (← (a[3]!).getArr?).toList.mapM kvOf
+  let ins ← (← (a[4]!).getArr?).toList.mapM ioOf
+  let outs ← (← (a[5]!).getArr?).toList.mapM ioOf
+  let res ← (← (a[6]!).getArr?).toList.mapM fun r => do
+    let q ← r.getArr?
+    pure ({ file := ← Wire.strOfCodes (q[0]!), typ := ← (q[1]!).getNat?, tags := ← strList (q[2]!) } : C16.Bin.Res)
+  pure { kind := ← (a[0]!).getNat?, alias := ← (a[1]!).getBool?, bases := ← strList (a[2]!),
+         kvs := kvs, inputs := ins, outputs := outs, res := res }
+
+open C16.Bin in
+def entJson (e : Ent) : Json :=
+  Json.arr #[Json.num (JsonNumber.fromNat e.kind), Json.bool e.alias,
+    Json.arr (e.bases.map Wire.codesOfStr).toArray,
+    Json.arr (e.kvs.map kvJson).toArray, Json.arr (e.inputs.map ioJson).toArray,
+    Json.arr (e.outputs.map ioJson).toArray,
+    Json.arr (e.res.map fun r => Json.arr #[Wire.codesOfStr r.file, Json.num (JsonNumber.fromNat r.typ),
+      Json.arr (r.tags.map Wire.codesOfStr).toArray]).toArray]
+
+/-! lazy database -/
+open C16.Lazy in
+def slotJson : Option Slot → Json
+  | none => Json.null
+  | some (.block i) => Wire.ofNatList [0, i]
+  | some (.ent e) =>
+    let (k, l) := match e.bases with | .names l => (0, l) | .ents l => (1, l)
+    Json.arr #[Json.num (JsonNumber.fromNat 1), Json.num (JsonNumber.fromNat e.payload),
+               Json.num (JsonNumber.fromNat k), Wire.ofNatList l]
+
+open C16.Lazy in
+def obsJson (S : Static) (names : List Nat) (s : State) : Json :=
+  Json.arr #[Json.arr ((List.range S.blocks.length).map fun i => Json.bool (s.parsed i)).toArray,
+             Json.arr (names.map fun n => slotJson (s.slot n)).toArray]
+
+open C16.Lazy in
+def lazyHandle (j : Json) : Except String Json := do
+  let bl ← (← j.getObjVal? "blocks").getArr?
+  let blocks ← bl.toList.mapM fun b => do
+    let es ← b.getArr?
+    es.toList.mapM fun e => do
+      let q ← e.getArr?
+      pure ({ name := ← (q[0]!).getNat?, bases := ← Wire.natList (q[1]!), payload := ← (q[2]!).getNat? } : RawEnt)
+  let S : Static := { blocks := blocks, cbase := ← j.getObjValAs? Nat "cbase" }
+  let cp ← j.getObjValAs? Nat "cpayload"
+  let qs ← Wire.natList (← j.getObjVal? "qs")
+  let names ← Wire.natList (← j.getObjVal? "names")
+  let s0 := initState S cp
+  let (steps, sfin) := qs.foldl (fun (acc : List Json × State) q =>
+      let s' := getEnt S acc.2 q
+      (obsJson S names s' :: acc.1, s')) ([obsJson S names s0], s0)
+  pure (Json.mkObj [("steps", Json.arr steps.reverse.toArray),
+                    ("all", obsJson S names (loadAll S sfin)),
+                    ("all0", obsJson S names (loadAll S s0))])
+
+def handle (j : Json) : Except String Json := do
+  let op ← j.getObjValAs? String "op"
+  match op with
+  | "long" =>
+    let ext ← j.getObjValAs? Bool "ext"
+    let indent ← Wire.strOfCodes (← j.getObjVal? "indent")
+    let s ← Wire.strOfCodes (← j.getObjVal? "s")
+    let cfgJ ← j.getObjVal? "cfg"
+    let cfg : LongCfg ← match cfgJ with
+      | Json.null => pure Gen.Fgdw.longCfg
+      | c => do
+        let a ← c.getArr?
+        pure { limit := ← (a[0]!).getNat?, small := ← (a[1]!).getNat?, backoff := ← (a[2]!).getBool?,
+               emptyQuotes := ← (a[3]!).getBool? }
+    let out := writeLongString cfg Gen.Tok.tables ext indent s
+    let r := run Gen.Tok.tables Gen.Fgdw.parseOpts foldId (out ++ ['\n'])
+    pure (Json.mkObj [("out", Wire.codesOfStr out),
+                      ("nsec", Json.num (JsonNumber.fromNat (longSections cfg Gen.Tok.tables ext s).length)),
+                      ("run", runJson r), ("read", readJson r true)])
+  | "colon" =>
+    let s ← Wire.strOfCodes (← j.getObjVal? "s")
+    let had ← j.getObjValAs? Bool "had"
+    let r := run Gen.Tok.tables Gen.Fgdw.parseOpts foldId s
+    pure (Json.mkObj [("run", runJson r), ("read", readJson r had)])
+  | "dict" =>
+    let d ← dictOf j
+    let qs ← strList (← j.getObjVal? "q")
+    pure (Json.mkObj [("r", Json.arr (qs.map fun q =>
+      match d.encode q with
+      | none => Json.null
+      | some bs => Json.arr #[Wire.ofNatList bs,
+          match C16.Bin.readStr d.table bs with
+          | some (s, _) => Wire.codesOfStr s
+          | none => Json.null]).toArray)])
+  | "ent" =>
+    let d ← dictOf j
+    let e ← entOf (← j.getObjVal? "ent")
+    let bs := C16.Bin.entSer Gen.Fgdw.typeCfg d e
+    let back := match bs with
+      | none => Json.null
+      | some b => match C16.Bin.entUnser Gen.Fgdw.typeCfg d.table b with
+        | some (e', []) => entJson e'
+        | _ => Json.null
+    pure (Json.mkObj [("bytes", optBytes bs), ("back", back)])
+  | "unent" =>
+    let tbl ← strList (← j.getObjVal? "tbl")
+    let bs ← Wire.natList (← j.getObjVal? "bytes")
+    match C16.Bin.entUnser Gen.Fgdw.typeCfg tbl bs with
+    | some (e, rest) => pure (Json.mkObj [("ent", entJson e), ("rest", Json.num (JsonNumber.fromNat rest.length))])
+    | none => pure (Json.mkObj [("ent", Json.null), ("rest", Json.num (JsonNumber.fromNat 0))])
+  | "lazy" => lazyHandle j
+  | _ => throw s!"unknown op {op}"
+
+def main : IO Unit := Wire.main handle
